@@ -372,6 +372,59 @@ theorem C04_fd_answer_values_perm (x : Term) (s1 s2 : State) (V1 V2 : List Term)
   rw [m1 v, m2 v]
   exact ⟨fun ⟨γ, a, b⟩ => ⟨γ, (hsem γ).1 a, b⟩, fun ⟨γ, a, b⟩ => ⟨γ, (hsem γ).2 a, b⟩⟩
 
+/-- C16 FOR THE ANSWERS `enforce_constraints_fd` ACTUALLY DELIVERS.  Post the atoms `as` (FD constraints, domains, `==`, `!=`;
+    any order, aliasing, hash order) from the empty state, reaching `s`; run `enforce_constraints_fd` on the query term as in
+    `C17_enforce_exactly_once`.  Every answer `b` that holds no tree disequality satisfies EVERY posted atom under its own
+    substitution: each constrained variable is an integer of its domain and every constraint holds — for the states the
+    engine really delivers (the labelling of the query term, then the first labelling of the hidden variables), not only
+    for hypothetical closed states. -/
+theorem C16_enforce_answers_sound {ord : Order} (ho : OrderOK ord) (dfs : Call → State → State × G) (pf M : Nat)
+    (n : Nat) (as : List FAtom) (hok : ∀ a ∈ as, a.OK) (hnz : ∀ a ∈ as, a.NoZ)
+    (x : Term) (s : State) (hs : postAllF ord (State.empty n) as = .ok s) (N : Nat) (xs : List State)
+    (hp : s.panic = none) (hops : OpsOK s)
+    (h1 : evalRef dfs N (forceAns ord forceFuel x) s = some xs) (hall1 : ∀ c ∈ xs, c.panic = none)
+    (NOf : State → Nat) (dsOf ysOf : State → List State)
+    (hblk : ∀ c ∈ xs, c.allBound = true ∧ c.dstore.length < forceFuel ∧
+      evalRef dfs (NOf c) (forceAns ord forceFuel (Term.ofList ((ord.ds c.dstore).map fun p => Term.var p.1))) c = some (dsOf c) ∧
+      (∀ t ∈ dsOf c, t.panic = none) ∧
+      drainF (solveAt dfs pf (M + 1)) pf
+        (start dfs (solveAt dfs pf (M + 1)) pf
+          (Goal.conjOfList [forceAns ord forceFuel (Term.ofList ((ord.ds c.dstore).map fun p => Term.var p.1))]) c) = some (ysOf c)) :
+    ∀ c ∈ xs, ∀ b, (ysOf c).head? = some b → b.store = [] → ∀ a ∈ as, a.Sat b.σ := by
+  intro c hc b hb hst a ha
+  have hi := linv_of_atoms ho n as hok hnz s hs
+  obtain ⟨li, oc, rc⟩ := blocks_inv ho dfs forceFuel N x s xs hi hp hops h1 hall1 c hc
+  obtain ⟨a1, a2, a3, a4, a5⟩ := hblk c hc
+  have hperm := ho.2.2 c.dstore
+  have hmap : (ord.ds c.dstore).map (fun p => Term.var p.1) = ((ord.ds c.dstore).map (·.1)).map Term.var := by
+    rw [List.map_map]; rfl
+  rw [hmap] at a3 a5
+  have hks : ∀ y, (c.dget y).isSome → y ∈ (ord.ds c.dstore).map (·.1) := fun y hy => by
+    obtain ⟨q, hq, e'⟩ := dget_isSome_iff.1 hy
+    exact List.mem_map.2 ⟨q, hperm.mem_iff.2 hq, e'⟩
+  have hko : ∀ k ∈ (ord.ds c.dstore).map (·.1), KeyOK c k := fun k hk' => by
+    obtain ⟨q, hq, e'⟩ := List.mem_map.1 hk'
+    have : (c.dget k).isSome := dget_isSome_iff.2 ⟨q, hperm.mem_iff.1 hq, e'⟩
+    exact .inl ((li.dk k this).elim id (fun f => f.elim))
+  have hlen : ((ord.ds c.dstore).map (·.1)).length < forceFuel := by
+    rw [List.length_map, hperm.length_eq]; exact a2
+  have hle := hidden_labelling_engine ho dfs pf M _ forceFuel (NOf c) c (dsOf c) (ysOf c) hlen li (hall1 c hc) oc hks hko a3 a4 a5
+  have hbds : b ∈ dsOf c := hle.1.mem_iff.2 (List.mem_of_mem_head? hb)
+  -- the answer is reached from `s` by labelling equalities …
+  obtain ⟨rb, _⟩ := keys_labelled ho dfs _ forceFuel (NOf c) c (dsOf c) hlen li (hall1 c hc) hko a3 a4 b hbds
+  obtain ⟨ls, hls⟩ := rc.trans rb
+  -- … and closed
+  obtain ⟨k1, _⟩ := keys_labelling_decides ho dfs _ forceFuel (NOf c) c (dsOf c) hlen li (hall1 c hc) oc hks hko a3 a4
+  obtain ⟨d1, _, _, _⟩ := k1 b hbds
+  have hall' : postAllF ord (State.empty n) (as ++ labelAtoms ls) = .ok b := by
+    rw [postAllF_append', hs]; exact hls
+  refine fd_closed ho n (as ++ labelAtoms ls) (fun a' ha' => ?_) b hall' hst d1 a (List.mem_append.2 (.inl ha))
+  rcases List.mem_append.1 ha' with h | h
+  · exact hok a' h
+  · simp only [labelAtoms, List.mem_map] at h
+    obtain ⟨p, _, rfl⟩ := h
+    trivial
+
 /-! ### Non-vacuity of the end-to-end theorems: every hypothesis of `C17_assignments_bijection` holds on a concrete program -/
 section NonVacuity
 private def nvDfs : Call → State → State × G := fun _ a => (a, .fail)
